@@ -22,7 +22,9 @@ package lib
 //@   assigns nothing
 //@ func (t Transport) ParamStrings(p any) []string
 //@   assigns nothing
+//@ ghost func identOf(t Transport, d transports.Registration) string
 //@ func (t Transport) GetIdentifier(d transports.Registration) string
+//@   ensures result == identOf(t, d)
 //@   assigns nothing
 
 // ---------------- C06: covert address policy ----------------
@@ -127,6 +129,9 @@ package lib
 // the process-wide statistics singletons (sync.Once initialisation is not modelled)
 //@ func Stat() *Stats
 //@   ensures result == &statInstance
+// initStats (run once) creates the generation map and its lock; the lock is a leaf lock, taken and released inside
+// single Stats methods only, so the calling thread never holds it here
+//@   ensures result.genMutex != nil && result.generations != nil && !held(result.genMutex)
 //@   assigns nothing
 //@   trusted
 //@ func getProxyStats() *ProxyStats
@@ -161,7 +166,9 @@ package lib
 
 // (Proxy itself is not under contract yet: the spawn-site preconditions of halfPipe did not discharge in time.)
 
+//@ ghost func idStringOf(reg *DecoyRegistration) string
 //@ func (reg *DecoyRegistration) IDString() string
+//@   ensures result == idStringOf(reg)
 //@   assigns nothing
 //@   trusted
 //@ func writePROXYHeader(conn net.Conn, address string) error
@@ -185,15 +192,23 @@ package lib
 // G1: the registry maps are only touched while r.m is held (read or write hold): an obligation at every access.
 //@ guardedby @C09: RegisteredDecoys.m: decoys, decoysTimeouts
 
+// the registration tracked for d's phantom and identifier (nil if none): the abstract view of the nested map
+//@ define trackedReg(r *RegisteredDecoys, d *DecoyRegistration) *DecoyRegistration = ite(d.Transport in r.transports, r.decoys[ipString(d.PhantomIp)][identOf(r.transports[d.Transport], box(d))], nil)
+
 // helpers run inside a critical section of their caller
 //@ func (r *RegisteredDecoys) registrationExists(d *DecoyRegistration) *DecoyRegistration
 //@   requires r != nil && d != nil && (held(&r.m) || rheld(&r.m) > 0)
 //@   ensures @C09: held(&r.m) == old(held(&r.m)) && rheld(&r.m) == old(rheld(&r.m))
+//@   ensures @C09 @C08: result == trackedReg(r, d)
 //@   assigns nothing
 
 //@ func (r *RegisteredDecoys) track(d *DecoyRegistration) error
 //@   requires r != nil && d != nil && held(&r.m)
 //@   ensures @C09: held(&r.m)
+// a new registration is tracked as NOT valid; a duplicate leaves the tracked one (and its Valid flag) alone
+//@   ensures @C08 @C09: result == nil && old(trackedReg(r, d)) == nil ==> trackedReg(r, d) == d && !d.Valid
+//@   ensures @C08 @C09: old(trackedReg(r, d)) != nil ==> result == nil && trackedReg(r, d) == old(trackedReg(r, d)) && trackedReg(r, d).Valid == old(trackedReg(r, d).Valid)
+//@   ensures @C09: result != nil ==> trackedReg(r, d) == old(trackedReg(r, d))
 //@   assigns memory, now()
 
 //@ func (r *RegisteredDecoys) totalRegistrations() int
@@ -215,15 +230,24 @@ package lib
 // in which the tracked registration's Valid flag flips from false to true, and only there.
 //@ func (r *RegisteredDecoys) register(darkDecoyAddr string, d *DecoyRegistration) error
 //@   requires r != nil && d != nil && !held(&r.m) && rheld(&r.m) == 0
-//@   atcall dynamic#1 before: assert @C09: held(&r.m) && reg.Valid
+//@   atcall dynamic#1 before: assert @C09 @C10: held(&r.m) && reg.Valid && arg0 == reg
+//@   atcall dynamic#1 before: snap announcedNew := true
+// announced as new only when the TRACKED registration was not valid before this call (once per lifetime)
+//@   ensures @C09: defined(announcedNew) ==> old(trackedReg(r, d)) == nil || !old(trackedReg(r, d).Valid)
 // (the detector callbacks are func-valued fields; their frame is assumed: program memory, no lock operation)
 //@   dynamiccalls assigns memory
 //@   ensures @C09: !held(&r.m) && rheld(&r.m) == 0
 
 //@ func (r *RegisteredDecoys) markActive(d *DecoyRegistration)
 //@   requires r != nil && d != nil && !held(&r.m) && rheld(&r.m) == 0
-//@   atcall dynamic#1 before: assert @C09 @C08: held(&r.m) && regTimeout.status == regStatusUsed
+// representation invariant of the timeout index: no nil records (track is the only writer and stores a fresh record)
+//@   requires forall k string :: k in r.decoysTimeouts ==> r.decoysTimeouts[k] != nil
+//@   atcall dynamic#1 before: assert @C09 @C08: held(&r.m) && regTimeout.status == regStatusUsed && arg0 == d
+//@   atcall dynamic#1 before: snap markedUsed := true
 //@   dynamiccalls assigns memory
+// C08: a connection on a tracked registration always marks its record as used (it then lives 6 hours), whatever its age
+//@   ensures @C08: old(concat(idStringOf(d), ipString(d.PhantomIp)) in r.decoysTimeouts) ==> defined(markedUsed)
+//@   checks safety
 //@   ensures @C09: !held(&r.m) && rheld(&r.m) == 0
 
 // "a connection handler can see a registration only after it was validated": the lookup returns exactly validated
@@ -261,6 +285,8 @@ package lib
 //@ func (r *RegisteredDecoys) removeRegistration(index string) *regExpireLogMsg
 //@   requires r != nil && !held(&r.m) && rheld(&r.m) == 0
 //@   ensures @C08: result != nil ==> !(index in r.decoysTimeouts)
+// "forgotten entirely": if the index names a tracked registration, that registration is gone afterwards
+//@   ensures @C08: old(index in r.decoysTimeouts) && old(r.decoysTimeouts[index].identifier in r.decoys[r.decoysTimeouts[index].decoy]) ==> !(index in r.decoysTimeouts) && !(old(r.decoysTimeouts[index].identifier) in r.decoys[old(r.decoysTimeouts[index].decoy)])
 //@   ensures @C09: !held(&r.m) && rheld(&r.m) == 0
 
 // the sweep itself: every read of the registry happens under the lock (G1 obligations)
@@ -301,8 +327,9 @@ package lib
 
 // statistics bookkeeping (its own small lock, never the registry lock)
 //@ func (s *Stats) ExpireReg(generation uint32, source *pb.RegistrationSource)
-//@   assigns memory
-//@   trusted
+//@   requires s != nil && s.genMutex != nil && s.generations != nil && !held(s.genMutex)
+//@   ensures !held(s.genMutex)
+//@   assigns s.activeRegistrations, mapof(s.generations), held(s.genMutex), acq(s.genMutex)
 
 //@ func getRedisClient() *redis.Client
 //@   assigns nothing
